@@ -28,7 +28,15 @@ pub async fn handle_did_open_text_document(
     let (uri, session) = state.uri_and_session_from_workspace(&params.text_document.uri)?;
     state.documents.handle_open_file(&uri).await;
 
-    send_new_compilation_request(state, session.clone(), &uri, None, false, sync_workspace);
+    send_new_compilation_request(
+        state,
+        session.clone(),
+        &uri,
+        None,
+        false,
+        sync_workspace,
+        true,
+    );
     state.wait_for_parsing().await;
     state
         .publish_diagnostics(uri, params.text_document.uri, session)
@@ -37,6 +45,11 @@ pub async fn handle_did_open_text_document(
     Ok(())
 }
 
+/// Queues a compilation request for the compilation thread.
+///
+/// With `supersede` the request cancels a running compilation and replaces a request that is
+/// still queued. Without it the request yields to them: nothing is sent, the caller is served
+/// by the compilation that is already running or queued.
 fn send_new_compilation_request(
     state: &ServerState,
     session: Arc<Session>,
@@ -44,6 +57,7 @@ fn send_new_compilation_request(
     version: Option<i32>,
     optimized_build: bool,
     sync_workspace: Arc<SyncWorkspace>,
+    supersede: bool,
 ) {
     let file_versions = file_versions(&state.documents, uri, version.map(|v| v as u64));
 
@@ -53,6 +67,9 @@ fn send_new_compilation_request(
         &format!("\"version\":{}", version.unwrap_or(-1)),
     );
     if state.is_compiling.load(Ordering::SeqCst) {
+        if !supersede {
+            return;
+        }
         // If we are already compiling, then we need to retrigger compilation
         #[cfg(fuellabs_sway_verif)]
         sway_utils::verif::step("H.setRetrigger", "");
@@ -64,6 +81,9 @@ fn send_new_compilation_request(
     #[cfg(fuellabs_sway_verif)]
     sway_utils::verif::step("H.isFull", "");
     if state.cb_tx.is_full() {
+        if !supersede {
+            return;
+        }
         #[cfg(fuellabs_sway_verif)]
         sway_utils::verif::step("H.drain", "");
         while let Ok(TaskMessage::CompilationContext(_)) = state.cb_rx.try_recv() {
@@ -126,6 +146,7 @@ pub async fn handle_did_change_text_document(
         // TODO: Set this back to true once https://github.com/FuelLabs/sway/issues/6576 is fixed.
         false,
         sync_workspace,
+        true,
     );
     Ok(())
 }
@@ -156,7 +177,19 @@ pub(crate) async fn handle_did_save_text_document(
         .remove_dirty_flag(&params.text_document.uri)?;
     let (uri, session) = state.uri_and_session_from_workspace(&params.text_document.uri)?;
     let sync_workspace = state.get_sync_workspace_for_uri(&params.text_document.uri)?;
-    send_new_compilation_request(state, session.clone(), &uri, None, false, sync_workspace);
+    // Saving does not change the text, so a compilation that is running or queued already covers
+    // what was saved. The request of a save carries no document version: if it cancelled or
+    // replaced the request of the last edit it would be answered from a cache that predates that
+    // edit, and the edit would never be compiled.
+    send_new_compilation_request(
+        state,
+        session.clone(),
+        &uri,
+        None,
+        false,
+        sync_workspace,
+        false,
+    );
     state.wait_for_parsing().await;
     state
         .publish_diagnostics(uri, params.text_document.uri, session)
